@@ -128,7 +128,8 @@ impl Epoch {
         provider: L,
     ) -> Option<f64> {
         for leap_second in provider.rev() {
-            if self.to_tai_duration().to_seconds() >= leap_second.timestamp_tai_s
+            // Compare durations, not f64 seconds: near a threshold the f64 seconds round up to it.
+            if self.to_tai_duration() >= leap_second.timestamp_tai_s * Unit::Second
                 && (!iers_only || leap_second.announced_by_iers)
             {
                 return Some(leap_second.delta_at);
